@@ -20,7 +20,7 @@
 //	md  <entries>      concatenated link metadata of the request in wire order: <block><p|m>[+]  (+ = the
 //	                   message carrying the entry also carries the block; first present entry of that cid in the message);
 //	                   !<block> = a block in a message without a present entry for it in that message
-//	st  <statuses>     the non-partial response status codes seen, in wire order
+//	st  <statuses>     the non-partial response status codes seen, in wire order (mq real: only the last one)
 //	msgs <detail>      mq fake only: per message [<status> <index>:<entry>... b=<blocks>]; "-" in mq real mode
 package responder
 
@@ -278,6 +278,7 @@ type wireMsg struct {
 	stray   []int
 	indices []int64 // BlockData.Index per item (fake mq only)
 	other   int     // responses for other requests (unexpected)
+	unknown int     // blocks whose bytes hash to no CID of the DAG
 }
 
 type reqState struct {
@@ -304,6 +305,7 @@ type world struct {
 	have, corrupt map[int]bool
 	rdBuf         bool
 	storeSet      bool
+	ltSeen        bool
 
 	mqMode string
 	script []int
@@ -420,10 +422,10 @@ func (f *fakeHandler) flushLocked() {
 	}
 	b := f.cur
 	f.cur = nil
-	f.pos++
 	if b.Empty() {
 		return
 	}
+	f.pos++
 	m, err := b.Build()
 	if err != nil {
 		f.errs = append(f.errs, "build:"+err.Error())
@@ -671,7 +673,11 @@ func (w *world) view(rs *reqState, rms []recMsg) []wireMsg {
 		var wm wireMsg
 		blocks := map[int]bool{}
 		for _, b := range rm.msg.Blocks() {
-			blocks[w.d.Index(b.Cid())] = true
+			if i := w.d.Index(b.Cid()); i >= 0 {
+				blocks[i] = true
+			} else {
+				wm.unknown++ // bytes that do not hash to any block of the DAG (corrupted store)
+			}
 		}
 		used := map[int]bool{}
 		for _, resp := range rm.msg.Responses() {
@@ -754,6 +760,10 @@ func (w *world) report(rs *reqState, msgs []wireMsg) {
 			md = append(md, fmt.Sprintf("!%d", b))
 			rs.stray++
 		}
+		for i := 0; i < m.unknown; i++ {
+			md = append(md, "!x")
+			rs.stray++
+		}
 		if m.has && m.status != graphsync.PartialResponse {
 			st = append(st, stName(m.status))
 			rs.statuses = append(rs.statuses, m.status)
@@ -778,12 +788,24 @@ func (w *world) report(rs *reqState, msgs []wireMsg) {
 				}
 				parts = append(parts, idx+":"+fmtItem(it))
 			}
-			parts = append(parts, "b="+joinInts(m.blocks))
+			bl := joinInts(m.blocks)
+			for i := 0; i < m.unknown; i++ {
+				if bl == "-" {
+					bl = "x"
+				} else {
+					bl += ",x"
+				}
+			}
+			parts = append(parts, "b="+bl)
 			det = append(det, "["+strings.Join(parts, " ")+"]")
 		}
 	}
 	if len(md) == 0 {
 		md = []string{"-"}
+	}
+	if w.mqMode == "real" && len(st) > 1 {
+		// which status codes share a message depends on timing; the last one does not
+		st = st[len(st)-1:]
 	}
 	if len(st) == 0 {
 		st = []string{"-"}
@@ -825,7 +847,7 @@ func (w *world) bad3() {
 
 func (w *world) doReq(t []string) {
 	spec, ok := parseReq(t)
-	if !ok || w.d == nil || !w.storeSet {
+	if !ok || w.d == nil || !w.storeSet || !w.ltSeen {
 		w.bad3()
 		return
 	}
@@ -1080,6 +1102,7 @@ func runCase(c reg.Case, out *reg.Out) {
 			si := dag.NewSegInterner()
 			want := strings.Fields(w.ltFull.Format(si.Name))
 			if strings.Join(want, " ") == strings.Join(t[1:], " ") {
+				w.ltSeen = true
 				out.Line("lt ok")
 			} else {
 				out.Line("lt MISMATCH")
